@@ -114,20 +114,6 @@ end OG.C02
 
 namespace OG.C02
 
-theorem lookup_isSome_of_mem (c : Cell) (xs : List Cell) (h : c ∈ xs) :
-    ∃ v, lookup c.key xs = some v := by
-  induction xs with
-  | nil => simp at h
-  | cons d ds ih =>
-    simp only [lookup]
-    by_cases hk : d.key = c.key
-    · exact ⟨d.v, by simp [hk]⟩
-    · simp only [hk, if_false]
-      simp only [List.mem_cons] at h
-      rcases h with rfl | h
-      · exact absurd rfl hk
-      · exact ih h
-
 /-- lookup-equivalent cell lists hold the same keys. -/
 theorem Equiv.key_mem {a b : List Cell} (h : Equiv a b) (c : Cell) (hc : c ∈ a) :
     ∃ d ∈ b, d.key = c.key := by
